@@ -83,23 +83,29 @@ impl Engine for CallingContexts {
 
     fn real_vs_stub(&self) -> Value {
         json!({
-            "real": ["emit_batcher::{blocking_flush, blocking_send} (the tokio-aware re-exports)", "tokio current-thread and multi-thread runtimes, spawn, spawn_blocking"],
+            "real": ["emit_batcher::{blocking_flush, blocking_send} (the tokio-aware re-exports)", "tokio current-thread and multi-thread runtimes, spawn, spawn_blocking, LocalSet (run_until, spawn_local), block_in_place, Runtime::enter"],
             "simulated": [],
             "not_exercised": ["any path that has to wait: real tokio threads are outside the simulator, so only immediate paths are probed"]
         })
     }
 
     fn rule(&self) -> &'static str {
-        "deterministic probes: 5 calling contexts x 4 immediate calls; no schedule or fault is sampled here (the simulated engines do that); each (context, call) pair is one distinct case"
+        "deterministic probes: 10 calling contexts x 4 immediate calls; no schedule or fault is sampled here (the simulated engines do that); each (context, call) pair is one distinct case"
     }
 
     fn run(&self, ch: &mut Choices, ctx: &RunCtx) -> Outcome {
         let mut out = Outcome::default();
-        let context = ch.choose(5);
+        let context = ch.choose(10);
         let call = *ch.pick(&[Call::FlushEmpty, Call::FlushZeroPending, Call::SendRoom, Call::SendFullZero]);
         let (sender, receiver): (Sender<Vec<u32>>, Receiver<Vec<u32>>) = emit_batcher::bounded(2);
         let sender = Arc::new(sender);
-        let context_name = ["plain thread", "tokio current-thread runtime", "tokio multi-thread runtime (block_on thread)", "tokio multi-thread worker", "tokio spawn_blocking thread"][context as usize];
+        let context_name = ["plain thread", "tokio current-thread runtime", "tokio multi-thread runtime (block_on thread)", "tokio multi-thread worker", "tokio spawn_blocking thread",
+            "LocalSet driven by block_on of a multi-thread runtime",
+            "spawn_local task in a LocalSet on a multi-thread runtime",
+            "LocalSet on a current-thread runtime",
+            "block_in_place section on a multi-thread worker",
+            "plain thread that entered a multi-thread runtime's context (Runtime::enter)",
+        ][context as usize];
         let r: Result<(), String> = match context {
             0 => guarded(call, &sender),
             1 => {
@@ -115,10 +121,49 @@ impl Engine for CallingContexts {
                 let s = sender.clone();
                 rt.block_on(async move { tokio::spawn(async move { guarded(call, &s) }).await.unwrap_or_else(|e| Err(format!("task failed: {e}"))) })
             }
-            _ => {
+            4 => {
                 let rt = tokio::runtime::Builder::new_multi_thread().worker_threads(1).enable_all().build().unwrap();
                 let s = sender.clone();
                 rt.block_on(async move { tokio::task::spawn_blocking(move || guarded(call, &s)).await.unwrap_or_else(|e| Err(format!("task failed: {e}"))) })
+            }
+            5 => {
+                let rt = tokio::runtime::Builder::new_multi_thread().worker_threads(1).enable_all().build().unwrap();
+                let local = tokio::task::LocalSet::new();
+                rt.block_on(local.run_until(async { guarded(call, &sender) }))
+            }
+            6 => {
+                let rt = tokio::runtime::Builder::new_multi_thread().worker_threads(1).enable_all().build().unwrap();
+                let local = tokio::task::LocalSet::new();
+                let s = sender.clone();
+                rt.block_on(local.run_until(async move {
+                    tokio::task::spawn_local(async move { guarded(call, &s) })
+                        .await
+                        .unwrap_or_else(|e| Err(format!("task failed: {e}")))
+                }))
+            }
+            7 => {
+                let rt = tokio::runtime::Builder::new_current_thread().enable_all().build().unwrap();
+                let local = tokio::task::LocalSet::new();
+                let s = sender.clone();
+                rt.block_on(local.run_until(async move {
+                    tokio::task::spawn_local(async move { guarded(call, &s) })
+                        .await
+                        .unwrap_or_else(|e| Err(format!("task failed: {e}")))
+                }))
+            }
+            8 => {
+                let rt = tokio::runtime::Builder::new_multi_thread().worker_threads(1).enable_all().build().unwrap();
+                let s = sender.clone();
+                rt.block_on(async move {
+                    tokio::spawn(async move { tokio::task::block_in_place(|| guarded(call, &s)) })
+                        .await
+                        .unwrap_or_else(|e| Err(format!("task failed: {e}")))
+                })
+            }
+            _ => {
+                let rt = tokio::runtime::Builder::new_multi_thread().worker_threads(1).enable_all().build().unwrap();
+                let _guard = rt.enter();
+                guarded(call, &sender)
             }
         };
         drop(receiver);
@@ -135,7 +180,12 @@ impl Engine for CallingContexts {
             1 => "context_tokio_current_thread",
             2 => "context_tokio_multi_thread_block_on",
             3 => "context_tokio_multi_thread_worker",
-            _ => "context_tokio_spawn_blocking",
+            4 => "context_tokio_spawn_blocking",
+            5 => "context_local_set_multi_thread_block_on",
+            6 => "context_local_set_multi_thread_spawn_local",
+            7 => "context_local_set_current_thread",
+            8 => "context_inside_block_in_place",
+            _ => "context_entered_runtime_plain_thread",
         });
         if ctx.want_trace {
             out.trace.push(line);
